@@ -20,7 +20,7 @@ from ..histories import HistoryRunner, Profile, replay_of
 from ..session import cfg_name, default_config
 
 SHARDS = {"quick": 8, "thorough": 16}
-TIMEOUT = {"quick": 900, "thorough": 3600}
+TIMEOUT = {"quick": 1800, "thorough": 7200}
 DEPTH_MEM = {"quick": 5, "thorough": 7}
 DEPTH_CSV = {"quick": 3, "thorough": 4}
 N_RANDOM = {"quick": 10, "thorough": 150}
